@@ -361,6 +361,9 @@ class Interp(ExprMixin, StmtMixin):
     def inline(self, f, args, kwargs, w):
         if self.depth >= self.depth_limit:
             raise Unsupported("call depth limit at %s" % f.qual)
+        for d in f.node.decorator_list:
+            if not (isinstance(d, ast.Name) and d.id in ("property", "staticmethod")):
+                raise Unsupported("UNSUPPORTED decorator %s on %s" % (ast.unparse(d), f.qual))
         loc = self.bind_args(f.node, args, kwargs, f.modinfo, w)
         fr = Frame(f.modinfo, f.node, f.qual, loc)
         self.check_loop_shape(f.qual, f.node)
@@ -500,6 +503,8 @@ class Interp(ExprMixin, StmtMixin):
     # ------------------------------------------------------------------ methods of built-in containers
     def call_method(self, obj, name, args, kwargs, w):
         ops = self.ops
+        if name in ("append", "extend", "reverse", "pop", "insert", "clear", "sort", "update", "setdefault", "remove"):
+            self.check_not_shared(obj, w)
         if isinstance(obj, list):
             if name == "append":
                 obj.append(args[0])
